@@ -2,64 +2,89 @@ package props
 
 import (
 	"fmt"
-	"go/ast"
 	"strings"
 
 	"mgcheck/core"
 	"mgcheck/ordabs"
 )
 
-// c01PremiseDispatch: which store each premise kind reads.
+// c01PremiseDispatch: which store each premise kind reads - decided by evaluating
+// oneStepEvalPremise with the premise helpers replaced by recorders.
 func c01PremiseDispatch(c *core.Ctx) {
 	f := c.MustFunc(rC01Prem, "engine", "engine.oneStepEvalPremise")
-	if f == nil {
+	mkDelta := c.MustFunc(rC01Prem, "engine", "makeDeltaAtom")
+	if f == nil || mkDelta == nil {
 		return
 	}
-	info := f.Pkg.TypesInfo
-	for _, ts := range core.TypeSwitches(info, f.Decl.Body) {
-		if core.TypeName(ts.TagType) != "ast.Term" {
-			continue
-		}
-		if cc := ts.Cases["ast.NegAtom"]; cc != nil {
-			calls := core.FindCalls(info, cc, false, "engine.premiseNegAtom")
-			ok := len(calls) == 1 && core.FieldSel(info, calls[0].Args[1]) == "engine.store"
-			arg := ""
-			if len(calls) == 1 {
-				arg = core.Src(c.Prog.Fset, calls[0].Args[1])
-			}
-			c.Check(ok, rC01Prem, f.Name+":NegAtom", cc.Pos(), "negation is judged against e.store", "a negated atom must be evaluated by premiseNegAtom against the full store e.store (found store argument \""+arg+"\"): judged against a delta it would hold although the fact was derived earlier")
-		} else {
-			c.Bad(rC01Prem, f.Name+":NegAtom", f.Decl.Pos(), "no case for negated atoms")
-		}
-		if cc := ts.Cases["ast.Atom"]; cc != nil {
-			// if isDeltaPredicate(...) { ... e.deltaStore ... } else { ... e.store ... }
-			var okThen, okElse bool
-			ast.Inspect(cc, func(n ast.Node) bool {
-				is, ok := n.(*ast.IfStmt)
-				if !ok || !core.ContainsCall(info, is.Cond, false, "engine.isDeltaPredicate") {
-					return true
-				}
-				if u, isNot := ast.Unparen(is.Cond).(*ast.UnaryExpr); isNot && u.Op.String() == "!" {
-					okElse = core.MentionsField(info, is.Body, true, "engine.deltaStore") == false && core.MentionsField(info, is.Body, true, "engine.store")
-					if is.Else != nil {
-						okThen = core.MentionsField(info, is.Else, true, "engine.deltaStore")
-					}
-					return true
-				}
-				okThen = core.MentionsField(info, is.Body, true, "engine.deltaStore") && !core.MentionsField(info, is.Body, true, "engine.store")
-				if is.Else != nil {
-					okElse = core.MentionsField(info, is.Else, true, "engine.store") && !core.MentionsField(info, is.Else, true, "engine.deltaStore")
-				}
-				return true
-			})
-			c.Check(okThen && okElse, rC01Prem, f.Name+":Atom", cc.Pos(), "delta-prefixed atoms read e.deltaStore, all others e.store", fmt.Sprintf("the branch on isDeltaPredicate must read e.deltaStore for delta atoms (ok=%v) and e.store otherwise (ok=%v)", okThen, okElse))
-		}
-		if cc := ts.Cases["ast.TemporalLiteral"]; cc != nil {
-			src := core.SrcFull(c.Prog.Fset, cc)
-			ok := strings.Contains(src, "temporalDeltaStore") && strings.Contains(src, "temporalStore") && core.ContainsCall(info, cc, false, "engine.isDeltaPredicate")
-			c.Check(ok, rC01Prem, f.Name+":TemporalLiteral", cc.Pos(), "delta-prefixed temporal literals read the temporal delta store", "a temporal literal must choose between e.temporalStore and e.temporalDeltaStore by isDeltaPredicate")
+	k := &astKit{c: c, ok: true}
+	in := ordabs.New(c.Prog)
+	in.InstallTimeStubs()
+	store := &ordabs.Obj{Name: "store", Opaque: true}
+	delta := &ordabs.Obj{Name: "delta", Opaque: true}
+	tstore := &ordabs.Obj{Name: "temporal", Opaque: true}
+	tdelta := &ordabs.Obj{Name: "temporal-delta", Opaque: true}
+	var seen []string
+	nilRes := []ordabs.Value{(*ordabs.Slice)(nil), nil}
+	in.Stubs["engine.premiseNegAtom"] = func(in *ordabs.Interp, _ ordabs.Value, a []ordabs.Value) ([]ordabs.Value, error) {
+		seen = append(seen, "neg:"+objName(a[1])+":"+atomString(a[0]))
+		return nilRes, nil
+	}
+	in.Stubs["engine.premiseAtom"] = func(in *ordabs.Interp, _ ordabs.Value, a []ordabs.Value) ([]ordabs.Value, error) {
+		// the lookup function decides which store is read: call it with a recording callback
+		_, err := in.CallValue(a[1], []ordabs.Value{a[0], &ordabs.Stub{Name: "cb", Fn: func(in *ordabs.Interp, _ []ordabs.Value) ([]ordabs.Value, error) {
+			return []ordabs.Value{nil}, nil
+		}}})
+		return nilRes, err
+	}
+	for _, n := range []string{"factstore.FactStore", "factstore.ReadOnlyFactStore", "factstore.FactStoreWithRemove"} {
+		in.Stubs[n+".GetFacts"] = func(in *ordabs.Interp, recv ordabs.Value, a []ordabs.Value) ([]ordabs.Value, error) {
+			seen = append(seen, "atom:"+objName(recv)+":"+atomString(a[0]))
+			return []ordabs.Value{nil}, nil
 		}
 	}
+	in.Stubs["engine.premiseTemporalLiteral"] = func(in *ordabs.Interp, _ ordabs.Value, a []ordabs.Value) ([]ordabs.Value, error) {
+		lit := "?"
+		if tl, ok := a[0].(*ordabs.Rec); ok {
+			lit = atomString(tl.Fields["Literal"])
+		}
+		seen = append(seen, "temporal:"+objName(a[1])+":"+lit)
+		return nilRes, nil
+	}
+	opts := k.zero("engine", "EvalOptions")
+	opts.Fields["externalPredicates"] = ordabs.NewMap()
+	eng := k.zero("engine", "engine")
+	if !k.ok {
+		c.Unres(rC01Prem, f.Name, f.Decl.Pos(), "anchor-unresolved: engine types")
+		return
+	}
+	eng.Fields["store"], eng.Fields["deltaStore"] = store, delta
+	eng.Fields["temporalStore"], eng.Fields["temporalDeltaStore"] = tstore, tdelta
+	eng.Fields["options"] = opts
+	eng.Fields["predToDecl"] = ordabs.NewMap()
+	eo := &ordabs.Obj{Name: "engine", Fields: eng.Fields}
+	subst := &ordabs.Rec{Fields: map[string]ordabs.Value{}, T: "unionfind.UnionFind"}
+	in.Reset()
+	dq, err := in.Call(mkDelta, nil, []ordabs.Value{k.atom("q", 1)})
+	if !runORD(c, rC01Prem, mkDelta.Name, mkDelta, err) {
+		return
+	}
+	run := func(label string, prem ordabs.Value, want string) {
+		seen = nil
+		in.Reset()
+		_, err := in.Call(f, eo, []ordabs.Value{prem, subst, k.zero("ast", "Clause")})
+		if !runORD(c, rC01Prem, f.Name+":"+label, f, err) {
+			return
+		}
+		got := strings.Join(seen, " ")
+		c.Check(got == want, rC01Prem, f.Name+":"+label, f.Decl.Pos(), "reads "+want, fmt.Sprintf("%s is answered by [%s], want [%s]", label, got, want))
+	}
+	neg := k.zero("ast", "NegAtom")
+	neg.Fields["Atom"] = k.atom("q", 1)
+	run("NegAtom", neg, "neg:store:q()")
+	run("Atom", k.atom("q", 1), "atom:store:q()")
+	run("Atom:delta", dq[0], "atom:delta:q()")
+	run("TemporalLiteral", k.tl(k.atom("q", 1), true, false), "temporal:temporal:q()")
+	run("TemporalLiteral:delta", k.tl(dq[0], true, false), "temporal:temporal-delta:q()")
 }
 
 // c01Negation: premiseNegAtom semantics.
